@@ -62,15 +62,21 @@ def make_sim(kind, live, init, tracer='all'):
         mmap[table[k]] = {int(a): v for a, v in d.items()}
     tr = pyrtl.SimulationTrace(tracer, block=blk)
     dv = init.get('default', 0)
+    kw = {'tracer': tr, 'block': blk}
+    # arguments that would be empty / default are left out, so that the constructors' own
+    # default arguments (shared between all calls) are what the simulator gets
+    if rmap:
+        kw['register_value_map'] = rmap
+    if mmap:
+        kw['memory_value_map'] = mmap
+    if dv:
+        kw['default_value'] = dv
     if kind == 'sim':
-        return pyrtl.Simulation(tracer=tr, register_value_map=rmap, memory_value_map=mmap,
-                                default_value=dv, block=blk)
+        return pyrtl.Simulation(**kw)
     if kind == 'fast':
-        return pyrtl.FastSimulation(tracer=tr, register_value_map=rmap, memory_value_map=mmap,
-                                    default_value=dv, block=blk)
+        return pyrtl.FastSimulation(**kw)
     if kind == 'compiled':
-        return pyrtl.CompiledSimulation(tracer=tr, register_value_map=rmap,
-                                        memory_value_map=mmap, default_value=dv, block=blk)
+        return pyrtl.CompiledSimulation(**kw)
     raise HarnessError('sim kind ' + kind)
 
 
